@@ -918,3 +918,50 @@ mutant('B4-committed-info-loses-code', ['C09', 'C07'], [
 mutant('H4-root-shape-excluded-every-time', ['C13'], [
     ('src/delegated_safety/reserve.rs', "                root_value_pending = false;\n", ""),
 ], ['root-transfer-excluded-at-most-once'])
+
+# ---- survivors of the mechanical mutation sweep (sa/py/mutsweep.py) that were real breaks and became rules
+mutant('SW-incarnation_db-241-del', ['C09', 'C01'], [('src/incarnation_db.rs', '            result = Some(byte_code);\n', '')], ['|R5|'])
+mutant('SW-incarnation_db-262-del', ['C01'], [('src/incarnation_db.rs', '                    result = account;\n', '')], ['|R5|'])
+mutant('SW-parallel_state-91-1', ['C10', 'C08'], [('src/parallel_state.rs', '        // account should be None after selfdestruct so we can take it.\n        let previous_info = self.account.take();\n', '        // account should be None after selfdestruct so we can take it.\n        let previous_info = self.account.clone();\n')], ['|T8|'])
+mutant('SW-parallel_state-139-1', ['C10'], [('src/parallel_state.rs', '        // Set account to None.\n        let previous_info = self.account.take();\n', '        // Set account to None.\n        let previous_info = self.account.clone();\n')], ['|T8|'])
+mutant('SW-parallel_state-130-del', ['C10'], [('src/parallel_state.rs', '        self.account = Some(new_info);\n', '')], ['|T8|'])
+mutant('SW-parallel_state-176-del', ['C10'], [('src/parallel_state.rs', '        self.account = Some(new);\n', '')], ['|T8|'])
+mutant('SW-parallel_state-67-del', ['C10'], [('src/parallel_state.rs', '        self.account = Some(info);\n', '')], ['|T8|'])
+mutant('SW-parallel_state-43-del', ['C10'], [('src/parallel_state.rs', '            info.balance = info.balance.saturating_add(U256::from(balance));\n', '')], ['|T8|'])
+mutant('SW-parallel_state-54-del', ['C10'], [('src/parallel_state.rs', '            info.balance = U256::ZERO;\n', '')], ['|T8|'])
+mutant('SW-parallel_state-337-del', ['C10', 'C09'], [('src/parallel_state.rs', '                self.contracts.entry(info.code_hash).or_insert_with(|| info.code.clone().unwrap());\n', '')], ['|T8|'])
+mutant('SW-parallel_state-338-1', ['C10'], [('src/parallel_state.rs', '                self.contracts.entry(info.code_hash).or_insert_with(|| info.code.clone().unwrap());\n                (Some(transition), Some(changed_slots))\n', '                self.contracts.entry(info.code_hash).or_insert_with(|| info.code.clone().unwrap());\n                (None, Some(changed_slots))\n')], ['|T8|'])
+mutant('SW-parallel_state-355-2', ['C10'], [('src/parallel_state.rs', '                    self.get_account_mut(address).change(account.info, changed_storage);\n                (Some(transition), Some(changed_slots))\n', '                    self.get_account_mut(address).change(account.info, changed_storage);\n                (Some(transition), None)\n')], ['|T8|'])
+mutant('SW-parallel_state-361-del', ['C10', 'C08'], [('src/parallel_state.rs', '            self.update_storage_slot(address, changed_slots);\n', '')], ['|T8|'])
+mutant('SW-parallel_state-580-1', ['C10', 'C08'], [('src/parallel_state.rs', '            U256::ZERO\n', '            U256::MAX\n')], ['|T8|'])
+mutant('SW-parallel_state-898-del', ['C10', 'C06'], [('src/parallel_state.rs', '        let transitions = self.cache.apply_evm_state(evm_state);\n        self.apply_transition(transitions);\n', '        let transitions = self.cache.apply_evm_state(evm_state);\n')], ['|T8|'])
+mutant('SW-parallel_state-768-del', ['C10'], [('src/parallel_state.rs', '            balances.push(balance);\n', '')], ['|T8|'])
+mutant('SW-scheduler-794-del', ['C05'], [('src/scheduler.rs', '            self.tx_dependency.add(txid, dep_tx);\n', '')], ['|LC8|'])
+mutant('SW-scheduler-832-1', ['C05'], [('src/scheduler.rs', '                self.tx_dependency.remove(execute_id, false);\n', '                self.tx_dependency.remove(execute_id, true);\n')], ['|LC8|'])
+mutant('SW-scheduler-840-1', ['C05'], [('src/scheduler.rs', '        while !self.scheduler_ctx.finished() && !self.is_aborted() {\n', '        while !self.scheduler_ctx.finished() || !self.is_aborted() {\n')], ['|LC8|'])
+mutant('SW-scheduler-473-1', ['C05'], [('src/scheduler.rs', '                    Ok(result) => Some(result),\n', '                    Ok(result) => None,\n')], ['|LC8|'])
+mutant('SW-scheduler_context-16-1', ['C15'], [('src/scheduler/context.rs', '            executed: (0..num_txs).map(|_| AtomicBool::new(false)).collect(),\n', '            executed: (0..num_txs).map(|_| AtomicBool::new(true)).collect(),\n')], ['|U4|'])
+mutant('SW-scheduler_context-17-1', ['C15'], [('src/scheduler/context.rs', '            frontier: AtomicUsize::new(0),\n', '            frontier: AtomicUsize::new(1),\n')], ['|U4|'])
+mutant('SW-scheduler_context-27-1', ['C15', 'C05'], [('src/scheduler/context.rs', '            if end == start {\n', '            if end != start {\n')], ['|U4|'])
+mutant('SW-scheduler_context-32-del', ['C15', 'C05'], [('src/scheduler/context.rs', '            start = max(current, end);\n', '')], ['|U4|'])
+mutant('SW-scheduler_context-103-1', ['C15'], [('src/scheduler/context.rs', '        if index >= self.num_txs {\n', '        if index > self.num_txs {\n')], ['|U4|'])
+mutant('SW-scheduler_context-109-2', ['C15', 'C02'], [('src/scheduler/context.rs', '        let timestamp = self.logical_clock.fetch_add(1, Ordering::AcqRel);\n', '        let timestamp = self.logical_clock.fetch_add(0, Ordering::AcqRel);\n')], ['|U4|'])
+mutant('SW-scheduler_cursor-89-1', ['C15'], [('src/scheduler/cursor.rs', '            .is_ok()\n', '            .is_err()\n')], ['|U1|'])
+mutant('SW-scheduler_executor-145-1', ['C11'], [('src/scheduler/executor.rs', '        evm.precompiles.apply_precompile(address, move |_| Some(precompile));\n', '        evm.precompiles.apply_precompile(address, move |_| None);\n')], ['|P4|'])
+mutant('SW-scheduler_fallback-73-1', ['C03', 'C06'], [('src/scheduler/fallback.rs', '        if start == self.block_size {\n', '        if start != self.block_size {\n')], ['|S7|'])
+mutant('SW-scheduler_fallback-63-2', ['C03'], [('src/scheduler/fallback.rs', '        if start > self.block_size || result_count != start {\n', '        if start > self.block_size || result_count == start {\n')], ['|S7|'])
+mutant('SW-scheduler_ordered_commit-34-1', ['C06', 'C03'], [('src/scheduler/ordered_commit.rs', '    pub(crate) const ZERO: Self = Self(0);\n', '    pub(crate) const ZERO: Self = Self(1);\n')], ['|S7|'])
+mutant('SW-tx_dependency-69-1', ['C16'], [('src/tx_dependency.rs', '        if affects.is_empty() {\n', '        if affects.len() == 1 {\n')], ['|V1|'])
+mutant('SW-tx_dependency-93-1', ['C16'], [('src/tx_dependency.rs', '        if next < self.num_txs {\n', '        if next <= self.num_txs {\n')], ['|V1|'])
+mutant('SW-tx_dependency-151-1', ['C16'], [('src/tx_dependency.rs', '            let mut state = self.dependent_state[txid].lock();\n            if !state.onboard {\n', '            let mut state = self.dependent_state[txid].lock();\n            if state.onboard {\n')], ['|V1|'])
+mutant('SW-tx_dependency-152-del', ['C16'], [('src/tx_dependency.rs', '            let mut state = self.dependent_state[txid].lock();\n            if !state.onboard {\n                state.onboard = true;\n', '            let mut state = self.dependent_state[txid].lock();\n            if !state.onboard {\n')], ['|V1|'])
+mutant('SW-delegated_safety_reserve-100-1', ['C13'], [('src/delegated_safety/reserve.rs', '        let mut suffix = U256::ZERO;\n', '        let mut suffix = U256::MAX;\n')], ['|H6|'])
+mutant('SW-delegated_safety_reserve-105-del', ['C13'], [('src/delegated_safety/reserve.rs', '            schedule.cost_from[index] = suffix;\n', '')], ['|H6|'])
+mutant('SW-delegated_safety_reserve-126-1', ['C13'], [('src/delegated_safety/reserve.rs', '            _ => U256::ZERO,\n', '            _ => U256::MAX,\n')], ['|H6|'])
+mutant('SW-delegated_safety_reserve-63-1', ['C13'], [('src/delegated_safety/reserve.rs', '        let Some(txids) = self.sender_index().get(&address) else {\n            return U256::ZERO;\n', '        let Some(txids) = self.sender_index().get(&address) else {\n            return U256::MAX;\n')], ['|H6|'])
+mutant('SW-delegated_safety_handler-290-del', ['C13'], [('src/delegated_safety/handler.rs', '            result_gas = reserve_result_gas;\n', '')], ['|H6|'])
+mutant('SW-delegated_safety_handler-404-1', ['C13'], [('src/delegated_safety/handler.rs', '    if !account.data.bump_nonce() {\n', '    if account.data.bump_nonce() {\n')], ['|H6|'])
+mutant('SW-delegated_safety_instructions-19-2', ['C12'], [('src/delegated_safety/instructions.rs', '    instructions.insert_instruction(CREATE, Instruction::new(guarded_create::<false, _, _>), 0);\n', '    instructions.insert_instruction(CREATE, Instruction::new(guarded_create::<false, _, _>), 1);\n')], ['|Q2|'])
+mutant('SW-delegated_safety_config-31-1', ['C13'], [('src/delegated_safety/config.rs', '        Self { forbid_delegated_create: true, reserve_delegated_balance: false }\n', '        Self { forbid_delegated_create: false, reserve_delegated_balance: false }\n')], ['|H6|'])
+mutant('SW-config-34-del', ['C13'], [('src/config.rs', '        self.delegated_safety = delegated_safety;\n', '')], ['|H6|'])
+mutant('SW-beneficiary-46-1', ['C13'], [('src/beneficiary.rs', '        self.address == address\n', '        self.address != address\n')], ['|H6|'])
